@@ -1011,6 +1011,215 @@ def layout_cases(ctx, drv, impl, n, origin="layout"):
     return cases
 
 
+# ---------------------------------------------------------------------------
+# `defined` in any position + object-like macros (Props/C02Defined.lean): trees with many `defined` leaves whose operands
+# are macro names, macro leaves incl. chains / self- / mutually recursive definitions, in random admissible layouts; the
+# driver (op `condfrag`) decides every hypothesis of `cond_defined_partial` / `cond_objmacro_partial` with the Lean
+# definitions and evaluates the instance of the theorem; the share of cases inside the proved fragment is measured
+# ---------------------------------------------------------------------------
+COND_EXTRA = {  # name -> (definition string, lambda defs_on: replacement tree after FULL expansion)
+    "C": ("C=A", lambda on: MACROS["A"][1] if "A" in on else ident("A")),                 # chain
+    "S": ("S=S", lambda on: ident("S")),                                                    # self-reference: painted, value 0
+    "R1": ("R1=R2", lambda on: ident("R1") if "R2" in on else ident("R2")),                # mutual recursion
+    "R2": ("R2=R1", lambda on: ident("R2") if "R1" in on else ident("R1")),
+    "P": ("P=(C+1)", lambda on: par(bin_("+", MACROS["A"][1] if ("C" in on and "A" in on) else ident("A") if "C" in on else ident("C"), mk_lit(1)))),
+}
+COND_FUNLIKE = ["F(x)=x", "G()=1"]
+
+
+def cond_pool(on):
+    """name -> (definition, full-expansion tree) for the macros switched on"""
+    out = {m: MACROS[m] for m in on if m in MACROS}
+    for m in on:
+        if m in COND_EXTRA:
+            out[m] = (COND_EXTRA[m][0], COND_EXTRA[m][1](on))
+    return out
+
+
+def src_tree(a):
+    """the SOURCE parse tree (what `renderSrc` renders): a macro leaf is the identifier leaf of its name"""
+    k = a["k"]
+    if k == "macro":
+        return ident(a["n"])
+    out = dict(a)
+    for f in ("a", "l", "r", "c", "t", "e"):
+        if isinstance(a.get(f), dict):
+            out[f] = src_tree(a[f])
+    return out
+
+
+def macro_leaves(a, acc):
+    if a["k"] == "macro":
+        acc[a["n"]] = spec_tree(a["body"])
+        return acc
+    for f in ("a", "l", "r", "c", "t", "e"):
+        if isinstance(a.get(f), dict):
+            macro_leaves(a[f], acc)
+    return acc
+
+
+def sprinkle_defined(a, rng, names, p):
+    """replace leaves by `defined X` / `defined(X)` with probability p"""
+    k = a["k"]
+    if k in ("lit", "chr", "ident", "macro", "defd"):
+        if rng.random() < p:
+            return defd(rng.choice(names), rng.random() < 0.5)
+        if k == "lit" and not a["suf"][0] and (lit_info(a) or (0, False))[0] > IMAX and rng.random() < 0.85:
+            return mk_lit(rng.choice([0, 1, 2, 7]))           # most D8 constants (recorded finding, outside the theorem) are replaced
+        return a
+    out = dict(a)
+    for f in ("a", "l", "r", "c", "t", "e"):
+        if isinstance(a.get(f), dict):
+            out[f] = sprinkle_defined(a[f], rng, names, p)
+    return out
+
+
+def conddef_trees(ctx, n):
+    rng = ctx.rng
+    names = list(MACROS) + list(COND_EXTRA)
+    out = []
+    for _ in range(n):
+        on = [m for m in names if rng.random() < 0.45]
+        pool = cond_pool(on)
+        env = set(on)
+        funlike = [d for d in COND_FUNLIKE if rng.random() < 0.06]
+        size = rng.choice([1, 2, 2, 3, 3, 4, 5, 6, 8])
+        t = None
+        for _try in range(8):
+            t0 = random_tree(rng, size, [], env)
+            # macro leaves: replace identifier leaves that name a macro of the pool (random_tree only makes leaves of MACROS)
+            def put_macros(a):
+                k = a["k"]
+                if k == "ident" and a["n"] in pool:
+                    return macro(a["n"], pool[a["n"]][1])       # an identifier that names a macro IS a macro leaf
+                if k == "ident" and pool and rng.random() < 0.6:
+                    m = rng.choice(sorted(pool))
+                    return macro(m, pool[m][1])
+                if k in ("lit", "chr") and pool and rng.random() < 0.2:
+                    m = rng.choice(sorted(pool))
+                    return macro(m, pool[m][1])
+                o = dict(a)
+                for f in ("a", "l", "r", "c", "t", "e"):
+                    if isinstance(a.get(f), dict):
+                        o[f] = put_macros(a[f])
+                return o
+            t1 = put_macros(t0)
+            t1 = sprinkle_defined(t1, rng, names + UNKNOWN[:3] + ["defined_", "F"], rng.choice([0.15, 0.3, 0.5, 0.8]))
+            try:
+                twin(t1, env)
+                t = t1
+                break
+            except UB:
+                if rng.random() < 0.05:
+                    t = t1
+                    break
+        if t is None:
+            continue
+        t = parenthesize(t, rng, extra=rng.choice([0.0, 0.0, 0.2]))
+        defs = [pool[m][0] for m in on] + funlike
+        rng.shuffle(defs)
+        out.append((t, defs, env | {d.split("(")[0] for d in funlike}))
+    return out
+
+
+def _same_outcome(model_cond, impl_truth):
+    if isinstance(model_cond, dict) or isinstance(impl_truth, dict):
+        if not (isinstance(model_cond, dict) and isinstance(impl_truth, dict)):
+            return False
+        norm = lambda e: "TypeError" if e == "AttributeError" else e
+        return norm(model_cond["exc"]) == norm(impl_truth["exc"])
+    return model_cond == impl_truth
+
+
+def conddef_cases(ctx, drv, impl, n, origin="conddef"):
+    if drv is None:
+        return []
+    rng = ctx.rng
+    trees = conddef_trees(ctx, n)
+    srcs = [src_tree(t) for t, _, _ in trees]
+    seps = drv.batch([{"op": "layoutsep", "ast": a} for a in srcs])
+    reqs, meta = [], []
+    for (t, defs, env), a, sp in zip(trees, srcs, seps):
+        if sp["toks"] != src_tokens(t, []):
+            ctx.corr_break("conddef-source-tokens", {"ast": a}, src_tokens(t, []), sp["toks"])
+            continue
+        lead, gaps = choose_gaps(rng, sp["sep"], sp["cglue"], True)
+        sub = [[k, v] for k, v in sorted(macro_leaves(t, {}).items())]
+        reqs.append({"op": "condfrag", "ast": a, "sub": sub, "defs": defs, "lead": lead, "gaps": gaps})
+        meta.append((t, defs, env, a, sub, lead, gaps))
+    outs = drv.batch(reqs)
+    cases = []
+    share = ctx.extra.setdefault("conddef_fragment_share", {"cases": 0, "inside_cond_objmacro_partial": 0, "inside_cond_defined_partial": 0,
+                                                            "with_defined": 0, "with_defined_of_a_macro_name": 0, "with_macro_leaf": 0,
+                                                            "outside_because": {}})
+    for (t, defs, env, a, sub, lead, gaps), o in zip(meta, outs):
+        rec = {"text": o.get("text"), "defs": defs, "env": sorted(env), "ast": spec_tree(t), "origin": origin, "lead": lead, "gaps": gaps,
+               "src_ast": a, "sub": sub}
+        if not o.get("table_ok"):
+            ctx.notes.append(f"conddef: definitions rejected by the model: {defs} ({o.get('exc')})")
+            continue
+        share["cases"] += 1
+        ctx.dist["conddef:cases"] += 1
+        if o["n_defined"]:
+            share["with_defined"] += 1
+        if any(x in env for x in _defined_operands(t, [])):
+            share["with_defined_of_a_macro_name"] += 1
+        if o["n_macro_leaves"]:
+            share["with_macro_leaf"] += 1
+        inside = o["in_objmacro"] or o["in_defined"]
+        if o["in_objmacro"]:
+            share["inside_cond_objmacro_partial"] += 1
+            ctx.dist["conddef:inside_cond_objmacro_partial"] += 1
+        if o["in_defined"]:
+            share["inside_cond_defined_partial"] += 1
+            ctx.dist["conddef:inside_cond_defined_partial"] += 1
+            if not o["obj_ok"]:
+                share["inside_cond_defined_partial_with_function_like_table"] = share.get("inside_cond_defined_partial_with_function_like_table", 0) + 1
+        if inside:
+            share["inside_either"] = share.get("inside_either", 0) + 1
+            ctx.dist["conddef:inside_proved_fragment"] += 1
+        else:
+            why = ("macro leaf under a table that is not object-like" if not o["obj_ok"] else "D8 constant" if o["big_unsuffixed"] else
+                   "no C value (undefined behaviour / illegal constant)" if o["spec"] is None or not o["consts_ok"] else
+                   "substituted tree not grammatical" if not o["grammatical"] else
+                   "identifier leaf outside (macro without tree / `defined` as identifier)" if not o["leaves_ok"] else
+                   "not lexable" if not o["lexable"] else "layout" if not o["admissible"] else "other")
+            share["outside_because"][why] = share["outside_because"].get(why, 0) + 1
+        if not o["instance_ok"]:
+            # an instance of `cond_objmacro_partial` evaluated to false: the executed model is not the proved one
+            ctx.corr_break("conddef-theorem-instance", rec, o["cond"], o["spec"])
+        if not o["admissible"] or not o["c_admissible"]:
+            ctx.notes.append(f"conddef layout generator: admissible={o['admissible']} c_admissible={o['c_admissible']} for {o['text']!r}")
+            continue
+        # ---- model (PP.condValue on the Lean lexer's tokens) vs implementation, every case
+        it = impl.truth(o["text"], defs)
+        ctx.dist["conddef:condValue_vs_implementation"] += 1
+        if not _same_outcome(o["cond"], it):
+            ctx.corr_break("condfrag", rec, it, o["cond"])
+        # ---- inside the proved fragment the theorem gives the C truth value: the implementation is judged against it here
+        #      (and once more, like every case, by the evalx path below)
+        if inside:
+            want = int(o["spec"]["v"]) != 0
+            if it != want:
+                got = f"raises {it['exc']}" if isinstance(it, dict) else f"evaluates to {it}"
+                ctx.classify({k: rec[k] for k in ("text", "defs", "env", "ast", "origin", "lead", "gaps", "src_ast", "sub")},
+                             f"`{o['text']}` {('with -D ' + ' '.join(defs)) if defs else ''}: C value {o['spec']['v']} (truth {want}; `defined` decided "
+                             f"from the table, object-like macros replaced); implementation {got}", [])
+                continue
+        cases.append({"text": o["text"], "defs": defs, "env": sorted(env), "ast": spec_tree(t), "origin": origin, "nops": count_ops(t),
+                      "lead": lead, "gaps": gaps})
+    return cases
+
+
+def _defined_operands(a, acc):
+    if a["k"] == "defd":
+        acc.append(a["n"])
+    for f in ("a", "l", "r", "c", "t", "e", "body"):
+        if isinstance(a.get(f), dict):
+            _defined_operands(a[f], acc)
+    return acc
+
+
 
 GLUE_ATOMS = ["0", "1", "2", "08", "1.5", "0x", "1uu", "1lul", "0b2", "1e+3", "0x1e+2", "'a'", "'\\n'", "''", "'\\101'", "'\\x41'", "'\\377'", "'\\xFf'", "'\\400'", "'\\x100'", "'\\x'", "'\\q'", "'\\8'", "'\\1234'", "'\\18'",
               "'\\xg'", "'\\'", "'\\\\'", "'\\''", "'ab'", "'\\0", "\"s\"", "\"+\"", "A", "F", "G",
@@ -1398,6 +1607,12 @@ def run(ctx, drv):
         "holds and ISO C would not join the pair either): the real Lexer's tokens incl. prev_white are compared with `flagged` (what theorem "
         "lexer_reads_layout predicts), then the text goes through expander + evaluator and is judged like every other case (origin `layout`); "
         "layouts the code's lexer accepts but ISO C reads differently (`1--1`) are compared model-vs-implementation only (`layout-lexer-only`). "
+        "`defined` / object-like macros (origin `conddef`, Props/C02Defined.lean): trees in which 15-80 % of the leaves are `defined X` / `defined(X)` "
+        "(X drawn from the macro names, unknown identifiers, a function-like macro name) and identifier leaves name object-like macros incl. a chain "
+        "(C=A), a self-reference (S=S), mutual recursion (R1=R2, R2=R1) and a parenthesised body over a chain (P=(C+1)), under tables that in ~11 % of "
+        "the cases also hold function-like macros, written in random admissible layouts; driver op `condfrag` decides every hypothesis of "
+        "cond_defined_partial / cond_objmacro_partial with the Lean definitions (share inside the proved fragment: extra.conddef_fragment_share), "
+        "evaluates the instance of the theorem, and PP.condValue on the text is compared with the implementation on every case. "
         "Non-trivial = distinct WF (text, macro set) with >= 2 operators, plus distinct #elif programs. Malformed inputs and "
         "residual calls f(..) are compared model-vs-implementation only ('glue').")
     ctx.assumptions += [
@@ -1418,6 +1633,8 @@ def run(ctx, drv):
     run_cases(ctx, drv, impl, rnd)
     # ---- text level: random admissible layouts (Lean `layout` / `separable`), real Lexer tokens + prev_white, then the evaluator
     run_cases(ctx, drv, impl, layout_cases(ctx, drv, impl, ctx.n(4000, 30000)))
+    # ---- `defined` anywhere + object-like macros: hypotheses of cond_defined_partial / cond_objmacro_partial decided by the driver
+    run_cases(ctx, drv, impl, conddef_cases(ctx, drv, impl, ctx.n(3000, 15000)))
     # ---- glue
     run_cases(ctx, drv, impl, glue_cases(ctx, ctx.n(1500, 10000)), probe_every=10 ** 9)
     # ---- #elif clause
@@ -1454,6 +1671,8 @@ def search(ctx, drv):
     if not ctx.violations:
         run_cases(ctx, drv, impl, layout_cases(ctx, drv, impl, ctx.n(3000, 10000), origin="search-layout"))
     if not ctx.violations:
+        run_cases(ctx, drv, impl, conddef_cases(ctx, drv, impl, ctx.n(3000, 10000), origin="search-conddef"))
+    if not ctx.violations:
         run_elif(ctx, drv, elif_programs(ctx, ctx.n(20, 100)))
     if not ctx.violations:
         run_history(ctx, drv, impl, ctx.n(300, 1000))
@@ -1471,7 +1690,11 @@ def replay(ctx, drv, case):
         run_elif(c2, drv, [(case["program"], case.get("defs", []), {})])
         return {"program": case["program"], "violations": [w for w, _ in c2.violations], "correspondence_breaks": c2.corr_breaks}
     out = {"text": case["text"], "defs": case.get("defs", []), "implementation": impl.run(case["text"], case.get("defs", []), full=True)}
-    if drv is not None and case.get("gaps") is not None and case.get("ast") is not None:
+    if drv is not None and case.get("src_ast") is not None:
+        # a `defined` / object-like macro case: the hypotheses of cond_objmacro_partial as the Lean definitions decide them
+        out["condfrag"] = drv.ask({"op": "condfrag", "ast": case["src_ast"], "sub": case.get("sub", []), "defs": case.get("defs", []),
+                                   "lead": case.get("lead", ""), "gaps": case.get("gaps", [])})
+    elif drv is not None and case.get("gaps") is not None and case.get("ast") is not None:
         # a text-level case: the layout as the Lean definitions see it, and the real Lexer's tokens with prev_white
         o = drv.ask({"op": "layoutx", "ast": case["ast"], "lead": case.get("lead", ""), "gaps": case["gaps"]})
         out["layout"] = {k: o[k] for k in ("text", "admissible", "c_admissible", "lexok_all", "no_defined", "lex_match", "flagged")}
